@@ -607,6 +607,7 @@ func main() {
 	writeFile("Board.lean", genBoard(facts))
 	writeFile("AirGlue.lean", genAirGlue(facts))
 	writeFile("RoundLock.lean", genRoundLock(facts))
+	writeFile("MoreFacts.lean", genMoreFacts(facts))
 	genFacts(facts)
 	facts["machines"] = ms
 	bz, _ := json.MarshalIndent(facts, "", " ")
